@@ -138,6 +138,10 @@ inductive Call where
   | rotationLink (leader origin axis : V3)
   /-- `Elbow.chain(source, …)` where the source's sketch is / is not a `Disk` -/
   | elbowChain (isDisk : Bool)
+  /-- `arc_from_theta(p1, p2, angle, axis)` (the `Angle` edge): the sector angle against the float `np.pi * 2` -/
+  | arcTheta (angle twoPi : Rat)
+  /-- `Edge(vertex_1, vertex_2, data)` (every edge class): the ends are / are not `Vertex` objects -/
+  | edgeVertices (v1 v2 : Bool)
   deriving Repr
 
 def chainClass : Nat → String
@@ -234,6 +238,8 @@ def run (tol : Rat) : Call → Out
       checks [(decide (V3.norm2 d * V3.norm2 axis - V3.dot d axis * V3.dot d axis < tol * tol * V3.norm2 axis),
                "ValueError")]
   | .elbowChain isDisk => checks [(!isDisk, "ElbowCreationError")]
+  | .arcTheta a twoPi => checks [(!(decide (0 < absR a) && decide (absR a < twoPi)), "ValueError")]
+  | .edgeVertices v1 v2 => checks [(!(v1 && v2), "EdgeCreationError")]
 
 /-- The documented preconditions, each written as the two-sided / symmetric condition it is. -/
 def pre (tol : Rat) : Call → Bool
@@ -289,6 +295,9 @@ def pre (tol : Rat) : Call → Bool
       decide (tol * tol * V3.norm2 axis ≤
         V3.norm2 (leader - origin) * V3.norm2 axis - V3.dot (leader - origin) axis * V3.dot (leader - origin) axis)
   | .elbowChain isDisk => isDisk
+  -- the angle is not zero and lies strictly between -2π and 2π: two-sided in both senses
+  | .arcTheta a twoPi => decide (a ≠ 0) && decide (-twoPi < a) && decide (a < twoPi)
+  | .edgeVertices v1 v2 => v1 && v2
 
 /-- side conditions under which a call of the catalogue is meaningful at all (a stack holds at least
     one shape and its sketch at least one row; a `Project` that receives a label has 1 or 2 distinct ones) -/
@@ -566,6 +575,11 @@ def callOf (name : String) (r : List Rat) (s : List String) : Option Call :=
   | "elbowChain", [b], [] => do
       let k ← natOf? b
       if k < 2 then some (.elbowChain (k == 1)) else none
+  | "arcTheta", [a, t], [] => some (.arcTheta a t)
+  | "edgeVertices", [a, b], [] => do
+      let x ← natOf? a
+      let y ← natOf? b
+      if x < 2 ∧ y < 2 then some (.edgeVertices (x == 1) (y == 1)) else none
   | _, _, _ => none
 
 def handleCall (args : List String) : Option String :=
@@ -715,6 +729,12 @@ def G_rotationLink : List Stmt := [
 def G_elbowChain : List Stmt := [
     .s (.raise "ElbowCreationError" (.not (.flag "isinstance(source.sketch_1, Disk)")))]
 
+def G_arcTheta : List Stmt := [
+    .s (.raise "ValueError" (.not (.and (.cmp .lt (.int 0) (.abs (.var "angle"))) (.cmp .lt (.abs (.var "angle")) (.var "np.pi * 2")))))]
+
+def G_edgeVertices : List Stmt := [
+    .s (.raise "EdgeCreationError" (.not (.and (.flag "isinstance(self.vertex_1, Vertex)") (.flag "isinstance(self.vertex_2, Vertex)"))))]
+
 def G_meshGrade : List Stmt := [
     .s (.raise "RuntimeError" (.not (.flag "self.is_assembled")))]
 
@@ -766,6 +786,8 @@ def modelGuardTable : List (String × List Stmt) := [
   ("polarPolar", G_polarPolar),
   ("rotationLink", G_rotationLink),
   ("elbowChain", G_elbowChain),
+  ("arcTheta", G_arcTheta),
+  ("edgeVertices", G_edgeVertices),
   ("meshGrade", G_meshGrade),
   ("meshBackport", G_meshBackport),
   ("junctionAddClamp", G_junctionAddClamp),
@@ -775,6 +797,10 @@ def modelGuards (entry : String) : List Stmt := (modelGuardTable.lookup entry).g
 
 /-- the guards of an entry point as the translator found them in the source (empty when the rows do not decode) -/
 def genGuards (entry : String) : List Stmt := ((CBV.Gen.c20Guards.lookup entry).bind decode).getD []
+
+/-- the translator could not read this entry point of the current source (marker row of `cbv/tables/c20.py`) -/
+def untranslatable (entry : String) : Bool :=
+  CBV.Gen.c20Guards.lookup entry == some [("untranslatable", 0, "")]
 
 /-- `np.shape` of the nested list the harness builds for the sizes `dims`: nothing is known below an empty level -/
 def pyShape : List Nat → List Nat
@@ -820,6 +846,8 @@ def entryOf : Call → Option String
   | .polarArgs _ _ => some "polarCartesian"
   | .rotationLink _ _ _ => some "rotationLink"
   | .elbowChain _ => some "elbowChain"
+  | .arcTheta _ _ => some "arcTheta"
+  | .edgeVertices _ _ => some "edgeVertices"
 
 def nm (name : String) (x : Rat) : String → Rat := fun n => if n == name then x else 0
 def nm2 (n1 : String) (x1 : Rat) (n2 : String) (x2 : Rat) : String → Rat :=
@@ -878,6 +906,9 @@ def envOf (tol : Rat) (rt : Rat → Rat) : Call → Env
   | .polarArgs direction axis => { tol, rt, rat := nm "direction" direction, str := fun _ => axis }
   | .rotationLink leader origin axis => { tol, rt, vec := fun _ => radiusVector rt leader origin axis }
   | .elbowChain isDisk => { tol, rt, flag := fun _ => isDisk }
+  | .arcTheta a twoPi => { tol, rt, rat := nm2 "angle" a "np.pi * 2" twoPi }
+  | .edgeVertices v1 v2 =>
+      { tol, rt, flag := fun n => if n == "isinstance(self.vertex_1, Vertex)" then v1 else v2 }
 
 /-- a 20-digit approximation of the square root for the driver (the theorems take an exact root witness instead) -/
 def rtApprox (x : Rat) : Rat :=
@@ -896,6 +927,7 @@ def handleGuards (args : List String) : Option String :=
       let s ← parseList? ss
       let c ← callOf name r s
       let e ← entryOf c
+      if untranslatable e then return "untranslatable -"
       let t ← CBV.Gen.c20Guards.lookup e
       let g ← decode t
       if wf c then
